@@ -241,6 +241,9 @@ def run (ctx):
   from . import c18
   spi = q.find_method(repo, sw, 'send_packet_in', 'C11 packet-in'); ctx.analysed(spi)
   c18.packet_in_rules(ctx, repo, spi)
+  # 'no buffer' is None all the way: the packet-in sender truncates whenever it is handed anything else
+  alloc_ = q.find_method(repo, sw, '_buffer_packet', 'C11 allocator'); ctx.analysed(alloc_)
+  c18.allocator_samples(ctx, repo, sw, alloc_, q.cfg_of(alloc_), 'D4')
   pout = repo.cls(LOF, 'ofp_packet_out')
   ds = [f for f in pout.node.body if isinstance(f, ast.FunctionDef) and f.name == 'data' and any(isinstance(d, ast.Attribute) and d.attr == 'setter' for d in f.decorator_list)]
   if ds:
